@@ -128,7 +128,7 @@ def chk_companions(inp):
             f.append("distances_refer_to_the_processed_trajectories")
         if res.trajectories.get("reference") is not r or res.trajectories.get("estimate") is not e:
             f.append("stored_trajectories_are_the_processed_ones")
-        unit_txt = (cu or {"translation_part": Unit.meters, "rotation_angle_deg": Unit.degrees,
+        unit_txt = (cu or {"translation_part": Unit.meters, "point_distance": Unit.meters, "rotation_angle_deg": Unit.degrees,
                           "rotation_angle_rad": Unit.radians}.get(inp["relation"], Unit.none)).value
         if "APE" not in res.info["label"] or unit_txt not in res.info["label"]:
             f.append("label_names_metric_and_unit %r" % res.info["label"])
